@@ -50,17 +50,38 @@ Proof.
   rewrite skipn_app, skipn_all, Nat.sub_diag. reflexivity.
 Qed.
 
-Inductive coverage (w h : Z) (ls : list (list tok)) : Prop :=
-| CovRows :
-    (forall i l lm t, nth_error ls i = Some l -> clean t -> col t = lm -> sgr t = adefault ->
-       forall c, lm <= c < lm + w -> covered (line_evs lm t l) (row t) c = true) ->
-    coverage w h ls
-| CovBlock k lk :
-    nth_error ls k = Some lk ->
-    (forall lm t, clean t -> col t = lm -> sgr t = adefault ->
-       forall r c, row t - Z.of_nat k <= r < row t - Z.of_nat k + h -> lm <= c < lm + w ->
-         covered (line_evs lm t lk) r c = true) ->
-    coverage w h ls.
+(** every needed cell (i, j) of the rectangle is covered by the events of some line [k]
+    (run on its own row, [k] lines below the top) *)
+Definition coverage (need : Z -> Z -> bool) (w h : Z) (ls : list (list tok)) : Prop :=
+  forall i j, 0 <= i < h -> 0 <= j < w -> need i j = true ->
+    exists k lk, nth_error ls k = Some lk /\
+      forall lm t, clean t -> col t = lm -> sgr t = adefault ->
+        covered (line_evs lm t lk) (row t - Z.of_nat k + i) (lm + j) = true.
+
+(** the two usual ways: every line covers its own row; one line covers everything *)
+Lemma coverage_rows need w h ls :
+  Z.of_nat (length ls) = h ->
+  (forall i l lm t, nth_error ls i = Some l -> clean t -> col t = lm -> sgr t = adefault ->
+     forall c, lm <= c < lm + w -> covered (line_evs lm t l) (row t) c = true) ->
+  coverage need w h ls.
+Proof.
+  intros Hlen H i j Hi Hj _.
+  destruct (nth_error ls (Z.to_nat i)) as [l|] eqn:En; [|apply nth_error_None in En; lia].
+  exists (Z.to_nat i), l. split; [exact En|]. intros lm t Hc Hcol Hs.
+  replace (row t - Z.of_nat (Z.to_nat i) + i) with (row t) by lia.
+  eapply H; eauto. lia.
+Qed.
+
+Lemma coverage_block need w h ls k lk :
+  nth_error ls k = Some lk ->
+  (forall lm t, clean t -> col t = lm -> sgr t = adefault ->
+     forall r c, row t - Z.of_nat k <= r < row t - Z.of_nat k + h -> lm <= c < lm + w ->
+       covered (line_evs lm t lk) r c = true) ->
+  coverage need w h ls.
+Proof.
+  intros Hk H i j Hi Hj _. exists k, lk. split; [exact Hk|].
+  intros lm t Hc Hcol Hs. apply H; auto; lia.
+Qed.
 
 Lemma covered_app a b r c : covered (a ++ b) r c = covered a r c || covered b r c.
 Proof. unfold covered. apply existsb_app. Qed.
@@ -173,17 +194,17 @@ Proof.
 Qed.
 
 (** ** The theorem: line-structured renders meet the contract *)
-Theorem lines_rect w h ls :
+Theorem lines_rect need w h ls :
   0 < w -> Z.of_nat (length ls) = h -> ls <> [] ->
   (forall i l, nth_error ls i = Some l -> LineOK w h (Z.of_nat i) l) ->
-  coverage w h ls ->
-  Rect w h (joinlf ls).
+  coverage need w h ls ->
+  RectG need w h (joinlf ls).
 Proof.
   intros Hw Hh Hne HL Hcov.
   assert (Hnl : forall l, In l ls -> nolf l /\ l <> []).
   { intros l Hin. apply In_nth_error in Hin. destruct Hin as [i Hi].
     split; [apply (HL i l Hi)|eapply LineOK_nonempty; [exact Hw|apply (HL i l Hi)]]. }
-  unfold Rect. split; [exact Hw|]. split; [destruct ls; [congruence|cbn [length] in Hh; lia]|].
+  unfold RectG. split; [exact Hw|]. split; [destruct ls; [congruence|cbn [length] in Hh; lia]|].
   split; [|split; [|split]].
   - intros lm t Hc Hcol Hs.
     destruct (lines_exec w h (Z.lt_le_incl _ _ Hw) ls 0%nat lm t) as (evs & E & Hin & Hsub & _); auto.
@@ -191,15 +212,49 @@ Proof.
       try apply Hc; auto; try lia.
     exists evs. split; [reflexivity|]. split.
     + replace (row t - Z.of_nat 0) with (row t) in Hin by lia. exact Hin.
-    + intros r c Hr Hcc. destruct Hcov as [Hrows|k lk Hk Hblock].
-      * destruct (nth_error ls (Z.to_nat (r - row t))) as [l|] eqn:En;
-          [|apply nth_error_None in En; lia].
-        destruct (Hsub _ _ En) as (t' & C1 & C2 & C3 & C4 & C5).
-        apply C5. replace r with (row t') by lia. eapply Hrows; eauto.
-      * destruct (Hsub _ _ Hk) as (t' & C1 & C2 & C3 & C4 & C5).
-        apply C5. apply Hblock; auto; lia.
+    + intros r c Hr Hcc Hneed.
+      destruct (Hcov (r - row t) (c - lm)) as (k & lk & Hk & Hcv); try lia; auto.
+      destruct (Hsub _ _ Hk) as (t' & C1 & C2 & C3 & C4 & C5).
+      apply C5. specialize (Hcv lm t' C1 C2 C3).
+      replace (row t' - Z.of_nat k + (r - row t)) with r in Hcv by lia.
+      replace (lm + (c - lm)) with c in Hcv by lia. exact Hcv.
   - intros lm t Hc Hcol Hs.
     destruct (lines_exec w h (Z.lt_le_incl _ _ Hw) ls 0%nat lm t) as (evs & _ & _ & _ & Hlf); auto.
   - rewrite count_lf_joinlf; [lia|exact Hne|intros l Hl; apply Hnl, Hl].
   - apply last_joinlf; assumption.
+Qed.
+
+(** ** The structural contract: a render given as its list of lines *)
+Definition is_cr (x : tok) : bool := match x with TCR => true | _ => false end.
+Definition nocr (ts : list tok) : Prop := Forall (fun x => is_cr x = false) ts.
+
+Lemma nocr_app a b : nocr a -> nocr b -> nocr (a ++ b).
+Proof. intros; apply Forall_app; split; assumption. Qed.
+
+Record LinesRect (need : Z -> Z -> bool) (w h : Z) (ls : list (list tok)) : Prop := {
+  lr_w : 0 < w;
+  lr_len : Z.of_nat (length ls) = h;
+  lr_ne : ls <> [];
+  lr_ok : forall i l, nth_error ls i = Some l -> LineOK w h (Z.of_nat i) l;
+  lr_nocr : forall l, In l ls -> nocr l;
+  lr_cov : coverage need w h ls
+}.
+
+Theorem lines_rect' need w h ls : LinesRect need w h ls -> RectG need w h (joinlf ls).
+Proof. intros [H1 H2 H3 H4 _ H6]. apply lines_rect; assumption. Qed.
+
+(** a line without LF and CR runs the same under any left margin *)
+Lemma step_lm_indep lm1 lm2 t x : is_lf x = false -> is_cr x = false -> step lm1 t x = step lm2 t x.
+Proof.
+  intros H1 H2. unfold step. destruct (parser t).
+  - destruct x; try discriminate; reflexivity.
+  - destruct (is_esc_seq x); destruct x; try discriminate; reflexivity.
+  - reflexivity.
+Qed.
+
+Lemma exec_lm_indep lm1 lm2 : forall l t, nolf l -> nocr l -> exec lm1 t l = exec lm2 t l.
+Proof.
+  induction l as [|x l IH]; intros t H1 H2; [reflexivity|].
+  inversion H1; inversion H2; subst. cbn [exec fold_left].
+  rewrite (step_lm_indep lm1 lm2) by assumption. apply IH; assumption.
 Qed.
